@@ -22,6 +22,7 @@ import os
 import random
 import shutil
 import struct
+import subprocess
 import time
 import concurrent.futures
 
@@ -364,9 +365,29 @@ def run_cases(cases, wdir, tag, chunks=None, solo=False):
         events = vlib.run_driver("pbo", [m[0] for m in mats], wdir, kind="asan", timeout_s=CASE_TIMEOUT_S, tag=tag, env=ASAN_ENV)
     t2 = time.time()
     by = vlib.events_by_case(events)
+    # the command line tool's own loading loop (--input-pbo) over a sample of the damaged archives: it must not die either
+    cli_died = {}
+    sample = [m for c, m in zip(cases, mats) if c["fault"]["kind"] in ("truncate", "corruptlen") and prefix_of(c["arch"])]
+    sample = sample if solo else sample[::max(1, len(sample) // 160)]
+    def cli_one(m):
+        try:
+            r = subprocess.run([vlib.sqfvm_cli("rel"), "-a", "--no-execute-print", "--input-pbo", m[0]["path"], "--sqf", "diag_log 1"],
+                               stdin=subprocess.DEVNULL, stdout=subprocess.PIPE, stderr=subprocess.STDOUT, timeout=20, cwd=m[4])
+            out = r.stdout.decode("utf-8", "replace")
+            if r.returncode < 0 or "Error: signal" in out:
+                return m[0]["id"], "cli --input-pbo: " + (("signal %d" % -r.returncode) if r.returncode < 0 else out[out.find("Error: signal"):][:40].strip())
+        except subprocess.TimeoutExpired:
+            return m[0]["id"], "cli --input-pbo: timeout"
+        return m[0]["id"], ""
+    with concurrent.futures.ThreadPoolExecutor(max_workers=8) as ex:
+        for cid, why in ex.map(cli_one, sample):
+            if why:
+                cli_died[cid] = why
     lines, details, execs = {}, {}, []
     for c, (dcase, tarch, flen, before, d) in zip(cases, mats):
         obs, detail = observation(by.get(c["id"], []), before, listing(d))
+        if not obs["crash"] and c["id"] in cli_died:
+            obs["crash"], obs["stage"] = cli_died[c["id"]], "cli"
         detail["sanitizer"] = reports.get(c["id"], "")
         ln = {"e": "Case", "id": c["id"], "arch": tarch, "fault": c["fault"], "filelen": flen, "obs": obs}
         lines[c["id"]] = ln
